@@ -121,6 +121,7 @@ type FuncCtx struct {
 	keySorts map[string]string
 	curCallArgs []ast.Expr
 	ghostStack []map[string]*Val
+	pendingWB []writeBack
 	noMerge  bool
 }
 
